@@ -487,14 +487,14 @@ def run(tier, only=None):
     if only in (None, "rows"):
         t0 = time.time()
         m = RowMachine(core.seed(), (2, 2, 2), 2)
-        res = bfs.bfs(m, repo_root=core.REPO, validate_merges=(300 if q else 5000))
+        res = bfs.bfs(m, repo_root=core.REPO, time_cap=(600 if q else 1800), validate_merges=(300 if q else 5000))
         subs.append(core.Sub.from_e2("rows", res, bound="2x2x2 grid, 2 row variants per coordinate (16 row events), each coordinate used at most once",
                                      rule="state = set of rows in the file (canonical: all public attributes of the parsed input, location dimension sorted by id); "
                                           "transition = append one row, executed on the real reader from one representative order", wall=time.time() - t0))
     if only in (None, "meta"):
         t0 = time.time()
         m = RowMachine(core.seed(), (2, 1, 1), 2, meta_events=True)
-        res = bfs.bfs(m, repo_root=core.REPO, validate_merges=(300 if q else 5000))
+        res = bfs.bfs(m, repo_root=core.REPO, time_cap=(600 if q else 1800), validate_merges=(300 if q else 5000))
         subs.append(core.Sub.from_e2("meta", res, bound="2x1x1 grid (4 row events) + 6 comment / metadata line events in any interleaving",
                                      rule="as rows; metadata lines may come anywhere before or after data rows", wall=time.time() - t0))
     if only in (None, "header"):
